@@ -33,6 +33,12 @@ UNITS["C02"] = [
          trusted=["insert_partial only raises the head (proved: unit c02_booked); the row loops visit every persisted row (rusqlite)"]),
     dict(kind="structural", name="c02_sql_scoping", check="sql_actor_scoping", file="crates/klukai-types/src/agent.rs",
          trusted=["heuristic SQL reading (see c03_sql_scoping)"]),
+    dict(kind="verus", name="c02_cleared_head", template="specs/c02_cleared_head.vrs",
+         under_contract=["frag_cleared_head"], vacuity=["frag_cleared_head"],
+         trusted=["process_empty_version -> crsql_set_db_version(actor, v) sets the persisted per-actor head to v (cr-sqlite extension, external)",
+                  "opt_gt = derived PartialOrd on Option<CrsqlDbVersion>"],
+         assumptions=["fragment = then-branch of `let known = if change.is_complete() && change.is_empty()`; `&tx` -> `&mut Tx` stand-in whose ghost view is crsql_db_versions; `.map_err(..)` (error wrapping) dropped",
+                      "precondition in-memory head == persisted head is the C02 invariant itself (established by from_conn, unit c02_from_conn; maintained by this fragment and by cr-sqlite for non-empty versions — the latter is external)"]),
     dict(kind="verus", name="c02_insert_db", template="specs/c02_insert_db.vrs",
          under_contract=["VersionsSnapshot::insert_db", "lemma_decomposition_unique"], vacuity=["insert_db"],
          assumptions=["each literal SQL statement of insert_db is bound to a stand-in over a ghost table (DELETE by (actor,start,end) returns the row count; INSERT with PRIMARY KEY (actor_id,start)); `conn` is taken as &mut for the ghost table",
@@ -188,6 +194,9 @@ UNITS["C14"] = [
 ]
 
 UNITS["C09"] = [
+    dict(kind="structural", name="c09_vec_prealloc", check="speedy_prealloc", dir="crates/klukai-types/src", replay="c09_syncmsg",
+         trusted=["speedy 0.8.7 Reader::read_vec: returns Err when T::minimum_bytes_needed() * len exceeds the bytes remaining, else Vec::with_capacity(len) (dependency code, read not verified)",
+                  "speedy derive: minimum_bytes_needed of a struct = sum of its fields, of an enum = tag + smallest variant (>= 1 for any non-empty item)"]),
     dict(kind="depcheck", name="depcheck_c09"),
     dict(kind="kani", name="c09_pack", crate="kani/c09_pack", use_repo_lock=True,
          harnesses=[dict(name="width_rule_i64", complete=True, bound="none: full i64 domain, the only loop is the 8-iteration reference loop (unwinding assertions on)"),
